@@ -16,6 +16,9 @@ import (
 type e8Triage struct {
 	Verdict string // "SAFE" | "FINDING" | "NOT-QUANTIFIED"
 	Why     string
+	// Needs, when set, is a fact about the acting function that the SAFE verdict rests on; it is
+	// re-decided on every run and the pair is reported when it no longer holds.
+	Needs func(r *Run) bool
 }
 
 var e8Decisions = map[string][]string{
@@ -30,31 +33,28 @@ var e8Decisions = map[string][]string{
 }
 
 var e8Table = map[string]e8Triage{
-	"websocket.(*RealtimeHandler).HandleParticipantJoin|registry:found|Session.AddParticipant": {"FINDING",
-		"join of an existing session against its last departure: the session is found, the last member leaves and the session is removed and closed, then the joiner is added and answered with success — it sits in a session nobody can find (probe: 18 of 30000 rounds)"},
-	"websocket.(*RealtimeHandler).HandleParticipantJoin|registry:registered|Session.AddParticipant": {"SAFE",
-		"between registering a new session and adding its creator only a third connection that joins by a guessed id and leaves again could end the session; not demonstrated, and the window contains no blocking operation"},
-	"websocket.(*RealtimeHandler).leaveSession|session:empty|SessionStore.Remove": {"FINDING",
-		"two last members leaving at once both remove themselves, both see an empty session and both call Remove: gauge decremented twice, session id released twice (probe: gauge negative in 1 of 30000 rounds)"},
-	"websocket.(*RealtimeHandler).HandleEntityComponentAdd|entity:exists|EntityComponentStore.Add": {"FINDING",
-		"component add by any member against the owner's entity delete: the entity is found, deleted with its components, then the component is stored, relayed and handed to joiners for an entity that no longer exists (probe: 3 of 30000 rounds)"},
-	"modules/vikja.(*Module).handleSetEntityAction|entity:exists|State.SetEntityAction": {"FINDING",
-		"entity action by any member against the owner's entity delete: orphan action stored, relayed and handed to joiners (probe: 1 of 3000 rounds)"},
-	"modules/vikja.(*Module).handleSetEntityAction|action:stored|State.SetEntityAction": {"NOT-QUANTIFIED",
-		"two writers of one (entity, name) key may both pass the freshness test; C16 does not quantify over schedules"},
-	"modules/odal.(*Module).handleAssetInstanceAdd|entity:exists|State.SetAssetInstance": {"SAFE",
-		"owner only: behind the owner guard, and the owner's delete / departure run on the same connection loop"},
-	"websocket.(*RealtimeHandler).HandleEntityDelete|entity:exists|Session.RemoveEntity": {"SAFE", "owner only (owner guard); the owner's requests are sequential on its connection"},
-	"websocket.(*RealtimeHandler).HandleEntityDelete|entity:exists|EntityComponentStore.DeleteByEntityID": {"SAFE", "owner only (owner guard)"},
-	"websocket.(*RealtimeHandler).HandleEntityUpdatePose|entity:exists|Entity.SetPose": {"SAFE", "owner only (owner guard); acts on the entity object itself"},
-	"websocket.(*RealtimeHandler).HandleEntityComponentUpdate|entity:exists|EntityComponentStore.Update": {"SAFE", "Update only replaces an existing component; after a concurrent entity delete the cascade has removed it and Update reports failure"},
-	"websocket.(*RealtimeHandler).HandleEntityComponentDelete|entity:exists|EntityComponentStore.Delete": {"SAFE", "Delete only removes an existing component and reports absence otherwise"},
-	"websocket.(*RealtimeHandler).leaveSession|entity:exists|Session.RemoveEntity": {"SAFE", "the leaver's own entities; only their owner removes them and it is this connection"},
-	"websocket.(*RealtimeHandler).leaveSession|entity:exists|EntityComponentStore.DeleteByEntityID": {"SAFE", "the leaver's own entities"},
-	"modules/vikja.(*Module).Init|modulestate:missing|Session.SetModuleState": {"FINDING",
-		"creator and first joiner (or two joiners of a fresh session) both find no module state and each register their own: members of one session are bound to different vikja states (probe: 6 of 30000 rounds)"},
-	"modules/odal.(*Module).Init|modulestate:missing|Session.SetModuleState": {"FINDING", "same get-or-create race as vikja.Init (identical code): members bound to different odal states"},
-	"modules/dagaz.(*Module).Init|modulestate:missing|Session.SetModuleState": {"FINDING", "same get-or-create race as vikja.Init (identical code): members bound to different ground-plane indexes"},
+	"websocket.(*RealtimeHandler).HandleParticipantJoin|registry:found|Session.AddParticipant": {Verdict: "FINDING",
+		Why: "join of an existing session against its last departure: the session is found, the last member leaves and the session is removed and closed, then the joiner is added and answered with success — it sits in a session nobody can find (probe: 18 of 30000 rounds)"},
+	"websocket.(*RealtimeHandler).HandleParticipantJoin|registry:registered|Session.AddParticipant": {Verdict: "SAFE",
+		Why: "between registering a new session and adding its creator only a third connection that joins by a guessed id and leaves again could end the session; not demonstrated, and the window contains no blocking operation"},
+	"websocket.(*RealtimeHandler).leaveSession|session:empty|SessionStore.Remove": {Verdict: "SAFE",
+		Why: "two last members leaving at once both see an empty session and both call Remove, but Remove acts only on the session currently registered under its id, so the second call changes nothing (was a finding: gauge decremented twice, id released twice; fixed in 5285479). A joiner slipping in between the emptiness test and Remove is the registry:found pair of HandleParticipantJoin",
+		Needs: func(r *Run) bool { return r.removeIsIdempotent() }},
+	"websocket.(*RealtimeHandler).HandleEntityComponentAdd|entity:exists|EntityComponentStore.Add": {Verdict: "FINDING",
+		Why: "component add by any member against the owner's entity delete: the entity is found, deleted with its components, then the component is stored, relayed and handed to joiners for an entity that no longer exists (probe: 3 of 30000 rounds)"},
+	"modules/vikja.(*Module).handleSetEntityAction|entity:exists|State.SetEntityAction": {Verdict: "FINDING",
+		Why: "entity action by any member against the owner's entity delete: orphan action stored, relayed and handed to joiners (probe: 1 of 3000 rounds)"},
+	"modules/vikja.(*Module).handleSetEntityAction|action:stored|State.SetEntityAction": {Verdict: "NOT-QUANTIFIED",
+		Why: "two writers of one (entity, name) key may both pass the freshness test; C16 does not quantify over schedules"},
+	"modules/odal.(*Module).handleAssetInstanceAdd|entity:exists|State.SetAssetInstance": {Verdict: "SAFE",
+		Why: "owner only: behind the owner guard, and the owner's delete / departure run on the same connection loop"},
+	"websocket.(*RealtimeHandler).HandleEntityDelete|entity:exists|Session.RemoveEntity": {Verdict: "SAFE", Why: "owner only (owner guard); the owner's requests are sequential on its connection"},
+	"websocket.(*RealtimeHandler).HandleEntityDelete|entity:exists|EntityComponentStore.DeleteByEntityID": {Verdict: "SAFE", Why: "owner only (owner guard)"},
+	"websocket.(*RealtimeHandler).HandleEntityUpdatePose|entity:exists|Entity.SetPose": {Verdict: "SAFE", Why: "owner only (owner guard); acts on the entity object itself"},
+	"websocket.(*RealtimeHandler).HandleEntityComponentUpdate|entity:exists|EntityComponentStore.Update": {Verdict: "SAFE", Why: "Update only replaces an existing component; after a concurrent entity delete the cascade has removed it and Update reports failure"},
+	"websocket.(*RealtimeHandler).HandleEntityComponentDelete|entity:exists|EntityComponentStore.Delete": {Verdict: "SAFE", Why: "Delete only removes an existing component and reports absence otherwise"},
+	"websocket.(*RealtimeHandler).leaveSession|entity:exists|Session.RemoveEntity": {Verdict: "SAFE", Why: "the leaver's own entities; only their owner removes them and it is this connection"},
+	"websocket.(*RealtimeHandler).leaveSession|entity:exists|EntityComponentStore.DeleteByEntityID": {Verdict: "SAFE", Why: "the leaver's own entities"},
 }
 
 func (r *Run) e8Decision(g GuardClass) string {
@@ -170,6 +170,8 @@ func ruleAtomicity(r *Run) {
 					case !known:
 						r.CheckT("E8", site, false, ev.Pos, path,
 							"%s relies on a fact (%s) read from shared state earlier on this path, but no lock is held from that read to this change: another connection can invalidate the fact in between (pair not in the triage table)", shortFuncName(f), d.kind)
+					case tr.Needs != nil && !tr.Needs(r):
+						r.CheckT("E8", site, false, ev.Pos, path, "%s acts on %s without atomicity, and the fact the triage relied on no longer holds: %s", shortFuncName(f), d.kind, tr.Why)
 					case tr.Verdict == "FINDING":
 						r.CheckT("E8", site, false, ev.Pos, path, "%s acts on %s without atomicity: %s", shortFuncName(f), d.kind, tr.Why)
 					default:
@@ -193,4 +195,29 @@ func ruleAtomicity(r *Run) {
 		}
 	}
 	r.Floor("E8", "check-then-act pairs found on handler paths", nPairs, 12)
+}
+
+// removeIsIdempotent: every path of SessionStore.Remove that changes anything first finds the
+// session handed in registered under its own id (same rule as E7 Remove:idempotent).
+func (r *Run) removeIsIdempotent() bool {
+	fn := r.P.FuncByName("models.(*SessionStore).Remove")
+	if fn == nil {
+		return false
+	}
+	slot := "recv.sessions[recv.call:SessionStore.GlobalSessionID(param:#1.ID)]"
+	for _, path := range r.Paths(fn) {
+		path := path
+		r.at(&path)
+		g := r.guardMap(&path)
+		isRegistered := g["maplookup:"+slot] == "hit" && (g["eq:"+slot+"~param:#1"] == "equal" || g["eq:param:#1~"+slot] == "equal")
+		if isRegistered {
+			continue
+		}
+		for _, ev := range path.Events {
+			if ev.Kind == EvDelete || (ev.Kind == EvCall && ev.Depth == 0 && r.lockOpOf(ev) == nil && !strings.HasSuffix(objName(ev.Callee), "Once.Do") && !strings.HasSuffix(objName(ev.Callee), "GlobalSessionID")) {
+				return false
+			}
+		}
+	}
+	return true
 }
